@@ -55,6 +55,23 @@ Theorem C13_sma_binary64_no_drift : forall p s xs M, sma_new FOps p = Ok s -> (p
           (sma_outs' FOps s xs) (prefixes_from [] xs).
 Proof. exact sma_float_within_tau. Qed.
 
+(* ... and neither does MeanAbsoluteDeviation (up to 2^47 inputs): same statement as C01_mad_binary64_within_tau *)
+From TA Require Import Proofs.XMad Proofs.FloatMadErr.
+Theorem C13_mad_binary64_no_drift : forall p s xs M, mad_new FOps p = Ok s -> (p <= 140737488355328)%N ->
+  (1 <= M)%R -> (M <= bpow radix2 400)%R -> Forall (okin M) xs -> (INR (length xs) * u <= / 64)%R ->
+  Forall2 (fun o hh => let t := INR (length hh) in finF o /\ (0 <= FR o)%R /\
+            (Rabs (FR o - madev (map FR (lastn (N.to_nat p) hh))) <= (1 / 10 ^ 12 + 1 / 10 ^ 15 * (t * R_sqrt.sqrt t)) * M)%R)
+          (Wiring.mad_outs FOps s xs) (prefixes_from [] xs).
+Proof. exact mad_float_within_tau. Qed.
+(* ... nor the running mean of StandardDeviation, which is BollingerBands.average (up to 2^40 - 2 inputs) *)
+From TA Require Import Proofs.Ring Proofs.FloatSdMean Proofs.FloatAtr.
+Theorem C13_bb_average_binary64_no_drift : forall p s xs M, sd_new FOps p = Ok s -> (p < 9007199254740992)%N ->
+  (1 <= M)%R -> (M <= bpow radix2 400)%R -> Forall (okin M) xs -> (INR (length xs) + 2 <= bpow radix2 40)%R ->
+  Forall2 (fun md hh => finF (fst md) /\
+            (Rabs (FR (fst md) - mean (map FR (lastn (N.to_nat p) hh))) <= 14 * INR (length hh) * u * M)%R)
+          (Wiring.sd_mean_outs FOps s xs) (prefixes_from [] xs).
+Proof. exact sd_mean_float_error. Qed.
+
 From Coq Require Import List Floats.
 From TA Require Import Generic FloatInst XQ Run2 Par.Hom Par.Var Par.Oracle.
 (* the T2 oracle (exact rational run, evaluated by the checks) is the image of the exact real run these
